@@ -7,6 +7,7 @@ import (
 	"go/types"
 	"os"
 	"path/filepath"
+	"runtime/pprof"
 	"strings"
 	"time"
 
@@ -99,14 +100,24 @@ func cmdRun(args []string) {
 	transcript := fs.String("transcript", "", "write SMT transcript here")
 	trace := fs.Bool("trace", false, "trace paths")
 	maxLen := fs.Int("maxlen", 8, "")
-	maxEnum := fs.Int("maxenum", 64, "")
+	maxEnum := fs.Int("maxenum", 256, "")
 	loopBudget := fs.Int("loop", 0, "")
 	steps := fs.Int64("steps", 20000000, "")
 	preempt := fs.Int("preempt", 0, "")
 	maxPaths := fs.Int("maxpaths", 0, "")
 	qto := fs.Int("qtimeout", 10000, "per-query timeout ms")
 	stopFirst := fs.Bool("stopfirst", false, "")
+	resetEvery := fs.Int("reset", 20, "reset the solver every N paths")
+	sigor := fs.String("sigoracle", "", "pre-built signature oracle binary")
 	fs.Parse(args)
+	oracleBin = *sigor
+	if pf := os.Getenv("SYMGO_PROF"); pf != "" {
+		f, _ := os.Create(pf)
+		pprof.StartCPUProfile(f)
+		defer pprof.StopCPUProfile()
+	}
+	oracleCfg.repo, oracleCfg.harness, oracleCfg.modfile = *repo, *harnessDir, *modfile
+	defer closeOracle()
 
 	spec, err := buildSpec(*repo, *harnessDir, []string{*pkg}, *modfile)
 	if err != nil {
@@ -149,6 +160,7 @@ func cmdRun(args []string) {
 		Preempt: *preempt, MaxPaths: *maxPaths, Trace: *trace, QueryTimeout: *qto, StopAtFirst: *stopFirst,
 		CheckPanics: true, CheckDeadlock: true}
 	m := NewMachine(prog, s, opts)
+	m.resetEvery = *resetEvery
 	res := m.Explore(f)
 	data, _ := json.MarshalIndent(map[string]interface{}{"result": res, "load_s": loadS}, "", " ")
 	if *out != "" {
